@@ -150,7 +150,14 @@ pub fn view<P: Pay + Send + Sync>(h: &H<P>) -> R<View> {
                 use unsize::CoerceUnsize;
                 let bd: ArcBorrow<'_, dyn Tr> = b.unsize(unsize::Coercion!(to dyn Tr));
                 let bits: (usize, usize) = unsafe { std::mem::transmute_copy(&bd) };
-                ensure!(bits.0 == data, "C11", "ptr", "unsized ArcBorrow's data pointer {:#x} is not the value address {:#x}", bits.0, data);
+                ensure!(
+                    bits.0 == data,
+                    "C11",
+                    "ptr",
+                    "unsized ArcBorrow's data pointer {:#x} is not the value address {:#x}",
+                    bits.0,
+                    data
+                );
             }
             let (i2, t2, d2) = rd!(b.get());
             ensure!(
@@ -174,7 +181,12 @@ pub fn view<P: Pay + Send + Sync>(h: &H<P>) -> R<View> {
             ));
         }
         H::U1(u) => {
-            ensure!(u.is_first() && !u.is_second(), "C12", "variant", "U1 not first");
+            ensure!(
+                u.is_first() && !u.is_second(),
+                "C12",
+                "variant",
+                "U1 not first"
+            );
             match u.borrow() {
                 ArcUnionBorrow::First(b) => {
                     let (i, t, d) = rd!(b.get());
@@ -182,14 +194,24 @@ pub fn view<P: Pay + Send + Sync>(h: &H<P>) -> R<View> {
                     tag = t;
                     data = d;
                     heap = Some(b.with_arc(|a| a.heap_ptr() as usize));
-                    counts.push(("ArcUnionBorrow::strong_count", ArcUnionBorrow::strong_count(&u.borrow())));
+                    counts.push((
+                        "ArcUnionBorrow::strong_count",
+                        ArcUnionBorrow::strong_count(&u.borrow()),
+                    ));
                 }
-                ArcUnionBorrow::Second(_) => return viol("C12", "variant", "U1 borrows as second".into()),
+                ArcUnionBorrow::Second(_) => {
+                    return viol("C12", "variant", "U1 borrows as second".into())
+                }
             }
             counts.push(("ArcUnion::strong_count", ArcUnion::strong_count(u)));
         }
         H::U2(u) => {
-            ensure!(u.is_second() && !u.is_first(), "C12", "variant", "U2 not second");
+            ensure!(
+                u.is_second() && !u.is_first(),
+                "C12",
+                "variant",
+                "U2 not second"
+            );
             match u.borrow() {
                 ArcUnionBorrow::Second(b) => {
                     let (i, t, d) = rd!(b.get());
@@ -197,14 +219,24 @@ pub fn view<P: Pay + Send + Sync>(h: &H<P>) -> R<View> {
                     tag = t;
                     data = d;
                     heap = Some(b.with_arc(|a| a.heap_ptr() as usize));
-                    counts.push(("ArcUnionBorrow::strong_count", ArcUnionBorrow::strong_count(&u.borrow())));
+                    counts.push((
+                        "ArcUnionBorrow::strong_count",
+                        ArcUnionBorrow::strong_count(&u.borrow()),
+                    ));
                 }
-                ArcUnionBorrow::First(_) => return viol("C12", "variant", "U2 borrows as first".into()),
+                ArcUnionBorrow::First(_) => {
+                    return viol("C12", "variant", "U2 borrows as first".into())
+                }
             }
             counts.push(("ArcUnion::strong_count", ArcUnion::strong_count(u)));
         }
         H::UU(u, second) => {
-            ensure!(u.is_second() == *second, "C12", "variant", "UU variant flipped");
+            ensure!(
+                u.is_second() == *second,
+                "C12",
+                "variant",
+                "UU variant flipped"
+            );
             let b = match u.borrow() {
                 ArcUnionBorrow::First(b) => {
                     ensure!(!*second, "C12", "variant", "UU borrows as first");
@@ -291,59 +323,89 @@ pub fn view<P: Pay + Send + Sync>(h: &H<P>) -> R<View> {
 /// Every clone-style way of obtaining one more owning handle from `src` (choice `r`).
 pub fn dup_handle<P: Pay + Send + Sync>(src: &H<P>, r: usize) -> (H<P>, &'static str) {
     match src {
-    H::Arc(x) => match r {
-        0 => (H::Arc(x.clone()), "arc.clone"),
-        1 => (H::Arc(x.borrow_arc().clone_arc()), "arc.borrow_arc.clone_arc"),
-        2 => (H::Off(x.with_raw_offset_arc(|o| o.clone())), "arc.with_raw_offset_arc.clone"),
-        _ => (H::Arc(x.borrow_arc().with_arc(|y| y.clone())), "arc.borrow_arc.with_arc.clone"),
-    },
-    H::Off(x) => match r {
-        0 => (H::Off(x.clone()), "off.clone"),
-        1 => (H::Arc(x.clone_arc()), "off.clone_arc"),
-        2 => (H::Arc(x.with_arc(|y| y.clone())), "off.with_arc.clone"),
-        _ => (H::Arc(x.borrow_arc().clone_arc()), "off.borrow_arc.clone_arc"),
-    },
-    H::U1(x) => match r {
-        0 | 1 => (H::U1(x.clone()), "u1.clone"),
-        2 => (H::Arc(x.as_first().unwrap().clone_arc()), "u1.as_first.clone_arc"),
-        _ => match x.borrow() {
-            ArcUnionBorrow::First(b) => (H::Arc(b.clone_arc()), "u1.borrow.clone_arc"),
-            ArcUnionBorrow::Second(_) => unreachable!(),
+        H::Arc(x) => match r {
+            0 => (H::Arc(x.clone()), "arc.clone"),
+            1 => (
+                H::Arc(x.borrow_arc().clone_arc()),
+                "arc.borrow_arc.clone_arc",
+            ),
+            2 => (
+                H::Off(x.with_raw_offset_arc(|o| o.clone())),
+                "arc.with_raw_offset_arc.clone",
+            ),
+            _ => (
+                H::Arc(x.borrow_arc().with_arc(|y| y.clone())),
+                "arc.borrow_arc.with_arc.clone",
+            ),
         },
-    },
-    H::U2(x) => match r {
-        0 | 1 => (H::U2(x.clone()), "u2.clone"),
-        2 => (H::Arc(x.as_second().unwrap().clone_arc()), "u2.as_second.clone_arc"),
-        _ => match x.borrow() {
-            ArcUnionBorrow::Second(b) => (H::Arc(b.clone_arc()), "u2.borrow.clone_arc"),
-            ArcUnionBorrow::First(_) => unreachable!(),
+        H::Off(x) => match r {
+            0 => (H::Off(x.clone()), "off.clone"),
+            1 => (H::Arc(x.clone_arc()), "off.clone_arc"),
+            2 => (H::Arc(x.with_arc(|y| y.clone())), "off.with_arc.clone"),
+            _ => (
+                H::Arc(x.borrow_arc().clone_arc()),
+                "off.borrow_arc.clone_arc",
+            ),
         },
-    },
-    H::UU(x, sec) => match r {
-        0 | 1 => (H::UU(x.clone(), *sec), "uu.clone"),
-        _ => match x.borrow() {
-            ArcUnionBorrow::First(b) | ArcUnionBorrow::Second(b) => (H::Arc(b.clone_arc()), "uu.borrow.clone_arc"),
+        H::U1(x) => match r {
+            0 | 1 => (H::U1(x.clone()), "u1.clone"),
+            2 => (
+                H::Arc(x.as_first().unwrap().clone_arc()),
+                "u1.as_first.clone_arc",
+            ),
+            _ => match x.borrow() {
+                ArcUnionBorrow::First(b) => (H::Arc(b.clone_arc()), "u1.borrow.clone_arc"),
+                ArcUnionBorrow::Second(_) => unreachable!(),
+            },
         },
-    },
-    H::Uniq(_) => (H::Raw(std::ptr::null()), "none"),
-    #[cfg(feature = "full")]
-    H::UniqDyn(_) => (H::Raw(std::ptr::null()), "none"),
-    H::Raw(p) => {
-        let b = unsafe { ArcBorrow::from_ptr(*p) };
-        match r {
-            0 | 1 => (H::Arc(b.clone_arc()), "raw.from_ptr.clone_arc"),
-            _ => (H::Arc(b.with_arc(|y| y.clone())), "raw.from_ptr.with_arc.clone"),
+        H::U2(x) => match r {
+            0 | 1 => (H::U2(x.clone()), "u2.clone"),
+            2 => (
+                H::Arc(x.as_second().unwrap().clone_arc()),
+                "u2.as_second.clone_arc",
+            ),
+            _ => match x.borrow() {
+                ArcUnionBorrow::Second(b) => (H::Arc(b.clone_arc()), "u2.borrow.clone_arc"),
+                ArcUnionBorrow::First(_) => unreachable!(),
+            },
+        },
+        H::UU(x, sec) => match r {
+            0 | 1 => (H::UU(x.clone(), *sec), "uu.clone"),
+            _ => match x.borrow() {
+                ArcUnionBorrow::First(b) | ArcUnionBorrow::Second(b) => {
+                    (H::Arc(b.clone_arc()), "uu.borrow.clone_arc")
+                }
+            },
+        },
+        H::Uniq(_) => (H::Raw(std::ptr::null()), "none"),
+        #[cfg(feature = "full")]
+        H::UniqDyn(_) => (H::Raw(std::ptr::null()), "none"),
+        H::Raw(p) => {
+            let b = unsafe { ArcBorrow::from_ptr(*p) };
+            match r {
+                0 | 1 => (H::Arc(b.clone_arc()), "raw.from_ptr.clone_arc"),
+                _ => (
+                    H::Arc(b.with_arc(|y| y.clone())),
+                    "raw.from_ptr.with_arc.clone",
+                ),
+            }
         }
+        H::Dyn(x) => (H::Dyn(x.clone()), "dyn.clone"),
+        H::Hs(x) => (H::Hs(x.clone()), "hs.clone"),
+        #[cfg(feature = "full")]
+        H::Swap(c) => (
+            H::Arc(shadow::untracked(|| c.load_full())),
+            "swap.load_full",
+        ),
     }
-    H::Dyn(x) => (H::Dyn(x.clone()), "dyn.clone"),
-    H::Hs(x) => (H::Hs(x.clone()), "hs.clone"),
-    #[cfg(feature = "full")]
-    H::Swap(c) => (H::Arc(shadow::untracked(|| c.load_full())), "swap.load_full"),
-}
 }
 
 /// Every consuming conversion of a handle into another kind (choice `r`); `None` = released.
-pub fn conv_handle<P: Pay + Send + Sync>(h: H<P>, r: usize, even: bool) -> (Option<H<P>>, &'static str) {
+pub fn conv_handle<P: Pay + Send + Sync>(
+    h: H<P>,
+    r: usize,
+    even: bool,
+) -> (Option<H<P>>, &'static str) {
     match h {
         H::Arc(x) => match r {
             0 => (Some(H::Off(Arc::into_raw_offset(x))), "arc->off"),
@@ -366,7 +428,10 @@ pub fn conv_handle<P: Pay + Send + Sync>(h: H<P>, r: usize, even: bool) -> (Opti
             6 => {
                 #[cfg(feature = "full")]
                 {
-                    (Some(H::Swap(shadow::untracked(|| ArcSwapAny::new(x)))), "arc->swap")
+                    (
+                        Some(H::Swap(shadow::untracked(|| ArcSwapAny::new(x)))),
+                        "arc->swap",
+                    )
                 }
                 #[cfg(not(feature = "full"))]
                 {
@@ -429,7 +494,10 @@ pub fn conv_handle<P: Pay + Send + Sync>(h: H<P>, r: usize, even: bool) -> (Opti
         H::Hs(x) => (Some(H::Arc(x.into())), "hs->arc"),
         #[cfg(feature = "full")]
         H::Swap(c) => match r % 3 {
-            0 => (Some(H::Arc(shadow::untracked(|| c.into_inner()))), "swap->arc"),
+            0 => (
+                Some(H::Arc(shadow::untracked(|| c.into_inner()))),
+                "swap->arc",
+            ),
             1 => {
                 // store a clone of itself then swap it out: exercises store + swap on one allocation
                 let y = shadow::untracked(|| {
@@ -441,7 +509,10 @@ pub fn conv_handle<P: Pay + Send + Sync>(h: H<P>, r: usize, even: bool) -> (Opti
                 });
                 (Some(H::Swap(y)), "swap.store+swap")
             }
-            _ => (Some(H::Arc(shadow::untracked(|| c.into_inner()))), "swap->arc"),
+            _ => (
+                Some(H::Arc(shadow::untracked(|| c.into_inner()))),
+                "swap->arc",
+            ),
         },
     }
 }
@@ -475,7 +546,9 @@ impl<'s, P: Pay + Send + Sync> W<'s, P> {
         v.join("+")
     }
     fn free_slot(&mut self) -> Option<usize> {
-        let free: Vec<usize> = (0..self.slots.len()).filter(|i| self.slots[*i].is_none()).collect();
+        let free: Vec<usize> = (0..self.slots.len())
+            .filter(|i| self.slots[*i].is_none())
+            .collect();
         if free.is_empty() {
             None
         } else {
@@ -483,7 +556,9 @@ impl<'s, P: Pay + Send + Sync> W<'s, P> {
         }
     }
     fn used_slots(&self) -> Vec<usize> {
-        (0..self.slots.len()).filter(|i| self.slots[*i].is_some()).collect()
+        (0..self.slots.len())
+            .filter(|i| self.slots[*i].is_some())
+            .collect()
     }
     fn slots_of(&self, kind: &str) -> Vec<usize> {
         (0..self.slots.len())
@@ -562,7 +637,11 @@ impl<'s, P: Pay + Send + Sync> W<'s, P> {
         let hsh = hash64(&s);
         self.st.sigs.insert(hsh);
         // non-trivial: at least two different handle kinds or a raw-pointer leg took part
-        let mut kinds: Vec<&str> = s.split(';').filter(|x| !x.is_empty()).map(|x| x.split(':').last().unwrap_or("")).collect();
+        let mut kinds: Vec<&str> = s
+            .split(';')
+            .filter(|x| !x.is_empty())
+            .map(|x| x.split(':').last().unwrap_or(""))
+            .collect();
         kinds.sort();
         kinds.dedup();
         if kinds.len() >= 2 || s.contains("raw") {
@@ -587,7 +666,11 @@ impl<'s, P: Pay + Send + Sync> W<'s, P> {
             m.tag
         );
         if let Err(e) = val.check() {
-            return viol("C09", "unwrap", format!("{}: value handed out is not alive: {}", by, e));
+            return viol(
+                "C09",
+                "unwrap",
+                format!("{}: value handed out is not alive: {}", by, e),
+            );
         }
         if shadow::active() && m.block != 0 {
             ensure!(
@@ -618,7 +701,12 @@ impl<'s, P: Pay + Send + Sync> W<'s, P> {
             };
             let owners = self.owners(a);
             let m = &self.allocs[a];
-            ensure!(m.live, "C01", "live", "harness: slot refers to dead model alloc");
+            ensure!(
+                m.live,
+                "C01",
+                "live",
+                "harness: slot refers to dead model alloc"
+            );
             ensure!(
                 v.id == m.id && v.tag == m.tag,
                 "C01",
@@ -674,12 +762,23 @@ impl<'s, P: Pay + Send + Sync> W<'s, P> {
                     soft_push(&mut self.soft, "C04", "count", msg);
                 }
                 if owners >= 2 && !self.light {
-                    let k = format!("{}|{}|{}", ctx.split(' ').next().unwrap_or(""), name, self.owner_kinds(a, usize::MAX));
+                    let k = format!(
+                        "{}|{}|{}",
+                        ctx.split(' ').next().unwrap_or(""),
+                        name,
+                        self.owner_kinds(a, usize::MAX)
+                    );
                     self.st.ctx_sigs.insert(hash64(&k));
                 }
             }
             if kind == "uniq" || kind == "uniqdyn" {
-                ensure!(owners == 1, "C03", "uniq", "harness/model: UniqueArc coexists with {} owners", owners);
+                ensure!(
+                    owners == 1,
+                    "C03",
+                    "uniq",
+                    "harness/model: UniqueArc coexists with {} owners",
+                    owners
+                );
             }
         }
         // conservation of tracked values: one per live allocation plus the ones moved out
@@ -710,7 +809,13 @@ impl<'s, P: Pay + Send + Sync> W<'s, P> {
         }
         for id in &self.loose_ids {
             if P::HAS_ID {
-                ensure!(tk::state(*id) == tk::LIVE_S, "C09", "unwrap", "moved-out value id={} was destroyed", id);
+                ensure!(
+                    tk::state(*id) == tk::LIVE_S,
+                    "C09",
+                    "unwrap",
+                    "moved-out value id={} was destroyed",
+                    id
+                );
             }
         }
         if shadow::active() {
@@ -732,8 +837,16 @@ impl<'s, P: Pay + Send + Sync> W<'s, P> {
         }
         let f = shadow::take_findings();
         if let Some(x) = f.first() {
-            let props = if x.kind == "dealloc-layout-mismatch" { "C05,C01" } else { "C01" };
-            return viol(props, "alloc", format!("after {}: allocator monitor: {:?}", ctx, x));
+            let props = if x.kind == "dealloc-layout-mismatch" {
+                "C05,C01"
+            } else {
+                "C01"
+            };
+            return viol(
+                props,
+                "alloc",
+                format!("after {}: allocator monitor: {:?}", ctx, x),
+            );
         }
         Ok(())
     }
@@ -751,7 +864,10 @@ impl<'s, P: Pay + Send + Sync> W<'s, P> {
             4 => {
                 let mut u = UniqueArc::<P>::new_uninit();
                 u.write(P::make(t));
-                (unsafe { UniqueArc::assume_init(u) }.shareable(), "uniq_uninit")
+                (
+                    unsafe { UniqueArc::assume_init(u) }.shareable(),
+                    "uniq_uninit",
+                )
             }
             _ => {
                 let mut a: Arc<std::mem::MaybeUninit<P>> = Arc::new_uninit();
@@ -831,7 +947,8 @@ impl<'s, P: Pay + Send + Sync> W<'s, P> {
         let slot = self.slots[i].take().unwrap();
         let r = self.rng.below(8);
         let owners = self.owners(a) + 1;
-        let (h, how): (Option<H<P>>, &'static str) = shadow::tracked(|| conv_handle(slot.h, r, owners % 2 == 0));
+        let (h, how): (Option<H<P>>, &'static str) =
+            shadow::tracked(|| conv_handle(slot.h, r, owners % 2 == 0));
         let released = h.is_none();
         self.log(format!("s{} : {}", i, how));
         self.st.counts.bump(&format!("edge.convert:{}", how));
@@ -877,7 +994,11 @@ impl<'s, P: Pay + Send + Sync> W<'s, P> {
                 "uniq.{}.{}{}",
                 api,
                 if granted { "grant" } else { "decline" },
-                if granted { String::new() } else { format!(".with:{}", co) }
+                if granted {
+                    String::new()
+                } else {
+                    format!(".with:{}", co)
+                }
             )
         };
         let m_id = self.allocs[a].id;
@@ -896,10 +1017,20 @@ impl<'s, P: Pay + Send + Sync> W<'s, P> {
                 match r {
                     0 => {
                         set_op("C03,C01|Arc::get_mut");
-                        let g = shadow::tracked(|| Arc::get_mut(x).map(|m| m.set_tag(newtag)).is_some());
+                        let g = shadow::tracked(|| {
+                            Arc::get_mut(x).map(|m| m.set_tag(newtag)).is_some()
+                        });
                         self.log(format!("get_mut s{} -> {}", i, g));
                         self.st.counts.bump(&cell("get_mut", g));
-                        ensure!(g == sole, "C03", "uniq", "Arc::get_mut granted={} with {} owners ({})", g, owners, co);
+                        ensure!(
+                            g == sole,
+                            "C03",
+                            "uniq",
+                            "Arc::get_mut granted={} with {} owners ({})",
+                            g,
+                            owners,
+                            co
+                        );
                         if g {
                             self.allocs[a].tag = norm::<P>(newtag);
                         }
@@ -907,10 +1038,20 @@ impl<'s, P: Pay + Send + Sync> W<'s, P> {
                     }
                     1 => {
                         set_op("C03,C01|Arc::get_unique");
-                        let g = shadow::tracked(|| Arc::get_unique(x).map(|u| u.set_tag(newtag)).is_some());
+                        let g = shadow::tracked(|| {
+                            Arc::get_unique(x).map(|u| u.set_tag(newtag)).is_some()
+                        });
                         self.log(format!("get_unique s{} -> {}", i, g));
                         self.st.counts.bump(&cell("get_unique", g));
-                        ensure!(g == sole, "C03", "uniq", "Arc::get_unique granted={} with {} owners ({})", g, owners, co);
+                        ensure!(
+                            g == sole,
+                            "C03",
+                            "uniq",
+                            "Arc::get_unique granted={} with {} owners ({})",
+                            g,
+                            owners,
+                            co
+                        );
                         if g {
                             self.allocs[a].tag = norm::<P>(newtag);
                         }
@@ -920,7 +1061,15 @@ impl<'s, P: Pay + Send + Sync> W<'s, P> {
                         let g = x.is_unique();
                         self.log(format!("is_unique s{} -> {}", i, g));
                         self.st.counts.bump(&cell("is_unique", g));
-                        ensure!(g == sole, "C03", "uniq", "Arc::is_unique={} with {} owners ({})", g, owners, co);
+                        ensure!(
+                            g == sole,
+                            "C03",
+                            "uniq",
+                            "Arc::is_unique={} with {} owners ({})",
+                            g,
+                            owners,
+                            co
+                        );
                         self.slots[i] = Some(slot);
                     }
                     3 | 4 => {
@@ -931,19 +1080,39 @@ impl<'s, P: Pay + Send + Sync> W<'s, P> {
                             _ => unreachable!(),
                         };
                         set_op("C03,C09,C01|Arc::try_unique / TryFrom");
-                        let res = shadow::tracked(|| if r == 3 { Arc::try_unique(arc) } else { UniqueArc::try_from(arc) });
+                        let res = shadow::tracked(|| {
+                            if r == 3 {
+                                Arc::try_unique(arc)
+                            } else {
+                                UniqueArc::try_from(arc)
+                            }
+                        });
                         self.log(format!("{} s{} -> {}", api, i, res.is_ok()));
                         self.st.counts.bump(&cell(api, res.is_ok()));
                         match res {
                             Ok(mut u) => {
-                                ensure!(sole, "C03,C09", "uniq", "{} granted sole ownership with {} owners ({})", api, owners, co);
+                                ensure!(
+                                    sole,
+                                    "C03,C09",
+                                    "uniq",
+                                    "{} granted sole ownership with {} owners ({})",
+                                    api,
+                                    owners,
+                                    co
+                                );
                                 u.set_tag(newtag);
                                 self.allocs[a].tag = norm::<P>(newtag);
                                 self.slots[i] = Some(Slot { h: H::Uniq(u), a });
                                 self.sig(a, "conv:arc:uniq");
                             }
                             Err(back) => {
-                                ensure!(!sole, "C03,C09", "uniq", "{} declined for a sole owner", api);
+                                ensure!(
+                                    !sole,
+                                    "C03,C09",
+                                    "uniq",
+                                    "{} declined for a sole owner",
+                                    api
+                                );
                                 ensure!(
                                     back.heap_ptr() as usize == m_block,
                                     "C03,C09",
@@ -966,13 +1135,30 @@ impl<'s, P: Pay + Send + Sync> W<'s, P> {
                         self.st.counts.bump(&cell("try_unwrap", res.is_ok()));
                         match res {
                             Ok(v) => {
-                                ensure!(sole, "C03,C09", "unwrap", "try_unwrap moved the value out with {} owners ({})", owners, co);
-                                ensure!(tk::clones() == clones0, "C09", "unwrap", "try_unwrap cloned the value");
+                                ensure!(
+                                    sole,
+                                    "C03,C09",
+                                    "unwrap",
+                                    "try_unwrap moved the value out with {} owners ({})",
+                                    owners,
+                                    co
+                                );
+                                ensure!(
+                                    tk::clones() == clones0,
+                                    "C09",
+                                    "unwrap",
+                                    "try_unwrap cloned the value"
+                                );
                                 self.sig(a, "unwrap:arc");
                                 self.expect_moved_out(a, "try_unwrap", v)?;
                             }
                             Err(back) => {
-                                ensure!(!sole, "C03,C09", "unwrap", "try_unwrap declined for a sole owner");
+                                ensure!(
+                                    !sole,
+                                    "C03,C09",
+                                    "unwrap",
+                                    "try_unwrap declined for a sole owner"
+                                );
                                 ensure!(
                                     back.heap_ptr() as usize == m_block,
                                     "C09",
@@ -994,7 +1180,12 @@ impl<'s, P: Pay + Send + Sync> W<'s, P> {
                         self.st.counts.bump(&cell("unwrap_or_clone", sole));
                         self.sig(a, "unwrap_or_clone:arc");
                         if sole {
-                            ensure!(tk::clones() == clones0, "C09", "unwrap", "unwrap_or_clone cloned a solely owned value");
+                            ensure!(
+                                tk::clones() == clones0,
+                                "C09",
+                                "unwrap",
+                                "unwrap_or_clone cloned a solely owned value"
+                            );
                             self.expect_moved_out(a, "unwrap_or_clone", v)?;
                         } else {
                             ensure!(
@@ -1015,7 +1206,12 @@ impl<'s, P: Pay + Send + Sync> W<'s, P> {
                                     m_id
                                 );
                             }
-                            ensure!(v.tag() == m_tag, "C09", "unwrap", "unwrap_or_clone returned a different value");
+                            ensure!(
+                                v.tag() == m_tag,
+                                "C09",
+                                "unwrap",
+                                "unwrap_or_clone returned a different value"
+                            );
                             self.loose_ids.push(v.id());
                             self.loose.push(v);
                         }
@@ -1035,12 +1231,32 @@ impl<'s, P: Pay + Send + Sync> W<'s, P> {
                         self.st.counts.bump(&cell(api, sole));
                         let nb = x.heap_ptr() as usize;
                         if sole {
-                            ensure!(nb == m_block, "C08", "cow", "{} moved a solely owned value to a new allocation", api);
-                            ensure!(tk::clones() == clones0, "C08", "cow", "{} cloned a solely owned value", api);
+                            ensure!(
+                                nb == m_block,
+                                "C08",
+                                "cow",
+                                "{} moved a solely owned value to a new allocation",
+                                api
+                            );
+                            ensure!(
+                                tk::clones() == clones0,
+                                "C08",
+                                "cow",
+                                "{} cloned a solely owned value",
+                                api
+                            );
                             self.allocs[a].tag = norm::<P>(newtag);
                             self.slots[i] = Some(slot);
                         } else {
-                            ensure!(nb != m_block, "C08,C03", "cow", "{} wrote in place while {} other owners exist ({})", api, owners - 1, co);
+                            ensure!(
+                                nb != m_block,
+                                "C08,C03",
+                                "cow",
+                                "{} wrote in place while {} other owners exist ({})",
+                                api,
+                                owners - 1,
+                                co
+                            );
                             ensure!(
                                 tk::clones() == clones0 + 1,
                                 "C08",
@@ -1049,10 +1265,24 @@ impl<'s, P: Pay + Send + Sync> W<'s, P> {
                                 api,
                                 tk::clones() - clones0
                             );
-                            ensure!(Arc::count(x) == 1, "C08", "cow", "{}: the fresh copy is not solely owned", api);
+                            ensure!(
+                                Arc::count(x) == 1,
+                                "C08",
+                                "cow",
+                                "{}: the fresh copy is not solely owned",
+                                api
+                            );
                             let nid = x.id();
                             if P::HAS_ID {
-                                ensure!(tk::origin(nid) == m_id, "C08", "cow", "{}: the copy (id {}) was not cloned from the original (id {})", api, nid, m_id);
+                                ensure!(
+                                    tk::origin(nid) == m_id,
+                                    "C08",
+                                    "cow",
+                                    "{}: the copy (id {}) was not cloned from the original (id {})",
+                                    api,
+                                    nid,
+                                    m_id
+                                );
                             }
                             let h = slot.h;
                             self.sig(a, "cow-leave:arc");
@@ -1070,10 +1300,19 @@ impl<'s, P: Pay + Send + Sync> W<'s, P> {
                     _ => {
                         // count inside borrow callbacks while another borrow is active
                         let c = shadow::tracked(|| {
-                            x.with_raw_offset_arc(|o| o.with_arc(|y| y.borrow_arc().with_arc(|z| Arc::count(z))))
+                            x.with_raw_offset_arc(|o| {
+                                o.with_arc(|y| y.borrow_arc().with_arc(|z| Arc::count(z)))
+                            })
                         });
                         self.st.counts.bump("count_obs.nested-callbacks");
-                        ensure!(c == owners, "C04", "count", "count inside nested borrow callbacks is {} with {} owners", c, owners);
+                        ensure!(
+                            c == owners,
+                            "C04",
+                            "count",
+                            "count inside nested borrow callbacks is {} with {} owners",
+                            c,
+                            owners
+                        );
                         self.slots[i] = Some(slot);
                     }
                 }
@@ -1092,15 +1331,48 @@ impl<'s, P: Pay + Send + Sync> W<'s, P> {
                 self.log(format!("off.make_mut s{} (sole={})", i, sole));
                 self.st.counts.bump(&cell("off.make_mut", sole));
                 if sole {
-                    ensure!(nb == m_block, "C08", "cow", "OffsetArc::make_mut moved a solely owned value");
-                    ensure!(tk::clones() == clones0, "C08", "cow", "OffsetArc::make_mut cloned a solely owned value");
+                    ensure!(
+                        nb == m_block,
+                        "C08",
+                        "cow",
+                        "OffsetArc::make_mut moved a solely owned value"
+                    );
+                    ensure!(
+                        tk::clones() == clones0,
+                        "C08",
+                        "cow",
+                        "OffsetArc::make_mut cloned a solely owned value"
+                    );
                     self.allocs[a].tag = norm::<P>(newtag);
                 } else {
-                    ensure!(nb != m_block, "C08,C03", "cow", "OffsetArc::make_mut wrote in place while {} other owners exist ({})", owners - 1, co);
-                    ensure!(tk::clones() == clones0 + 1, "C08", "cow", "OffsetArc::make_mut made {} clones", tk::clones() - clones0);
-                    ensure!(cnt == 1, "C08", "cow", "OffsetArc::make_mut: the fresh copy is not solely owned");
+                    ensure!(
+                        nb != m_block,
+                        "C08,C03",
+                        "cow",
+                        "OffsetArc::make_mut wrote in place while {} other owners exist ({})",
+                        owners - 1,
+                        co
+                    );
+                    ensure!(
+                        tk::clones() == clones0 + 1,
+                        "C08",
+                        "cow",
+                        "OffsetArc::make_mut made {} clones",
+                        tk::clones() - clones0
+                    );
+                    ensure!(
+                        cnt == 1,
+                        "C08",
+                        "cow",
+                        "OffsetArc::make_mut: the fresh copy is not solely owned"
+                    );
                     if P::HAS_ID {
-                        ensure!(tk::origin(nid) == m_id, "C08", "cow", "OffsetArc::make_mut: copy not cloned from the original");
+                        ensure!(
+                            tk::origin(nid) == m_id,
+                            "C08",
+                            "cow",
+                            "OffsetArc::make_mut: copy not cloned from the original"
+                        );
                     }
                     let s = self.slots[i].take().unwrap();
                     self.sig(a, "cow-leave:off");
@@ -1118,7 +1390,12 @@ impl<'s, P: Pay + Send + Sync> W<'s, P> {
                     let v = shadow::tracked(|| UniqueArc::into_inner(u));
                     self.log(format!("into_inner s{}", i));
                     self.st.counts.bump("uniq.into_inner");
-                    ensure!(tk::clones() == clones0, "C09", "unwrap", "into_inner cloned the value");
+                    ensure!(
+                        tk::clones() == clones0,
+                        "C09",
+                        "unwrap",
+                        "into_inner cloned the value"
+                    );
                     self.sig(a, "unwrap:uniq");
                     self.expect_moved_out(a, "into_inner", v)?;
                 } else {
@@ -1135,9 +1412,18 @@ impl<'s, P: Pay + Send + Sync> W<'s, P> {
                     H::Hs(x) => x,
                     _ => unreachable!(),
                 };
-                let g = shadow::tracked(|| Arc::get_mut(x).map(|m| m.slice.set_tag(newtag)).is_some());
+                let g =
+                    shadow::tracked(|| Arc::get_mut(x).map(|m| m.slice.set_tag(newtag)).is_some());
                 self.st.counts.bump(&cell("hs.get_mut", g));
-                ensure!(g == sole, "C03", "uniq", "get_mut on Arc<HeaderSlice<(),T>> granted={} with {} owners ({})", g, owners, co);
+                ensure!(
+                    g == sole,
+                    "C03",
+                    "uniq",
+                    "get_mut on Arc<HeaderSlice<(),T>> granted={} with {} owners ({})",
+                    g,
+                    owners,
+                    co
+                );
                 if g {
                     self.allocs[a].tag = norm::<P>(newtag);
                 }
@@ -1151,7 +1437,16 @@ impl<'s, P: Pay + Send + Sync> W<'s, P> {
                 let g = x.is_unique();
                 let g2 = Arc::get_mut(x).is_some();
                 self.st.counts.bump(&cell("dyn.is_unique", g));
-                ensure!(g == sole && g2 == sole, "C03", "uniq", "is_unique/get_mut on Arc<dyn> = {}/{} with {} owners ({})", g, g2, owners, co);
+                ensure!(
+                    g == sole && g2 == sole,
+                    "C03",
+                    "uniq",
+                    "is_unique/get_mut on Arc<dyn> = {}/{} with {} owners ({})",
+                    g,
+                    g2,
+                    owners,
+                    co
+                );
             }
             _ => {
                 // drop a moved-out value now, if any
@@ -1159,7 +1454,12 @@ impl<'s, P: Pay + Send + Sync> W<'s, P> {
                     let id = self.loose_ids.pop().unwrap();
                     drop(v);
                     if P::HAS_ID {
-                        ensure!(tk::state(id) == tk::DEAD, "C09", "unwrap", "harness: dropping a moved-out value did not run its destructor");
+                        ensure!(
+                            tk::state(id) == tk::DEAD,
+                            "C09",
+                            "unwrap",
+                            "harness: dropping a moved-out value did not run its destructor"
+                        );
                     }
                 }
             }
@@ -1192,33 +1492,99 @@ impl<'s, P: Pay + Send + Sync> W<'s, P> {
                 let mut h2 = std::collections::hash_map::DefaultHasher::new();
                 (**x).hash(&mut h2);
                 let dbg = format!("{:?}", x);
-                ensure!(eq == (ti == tj) && ne == !eq, "C14", "cmp", "Arc eq/ne = {}/{} for values {} and {}", eq, ne, ti, tj);
-                ensure!(ord == ti.cmp(&tj), "C14", "cmp", "Arc cmp = {:?} for values {} and {}", ord, ti, tj);
-                ensure!(h1.finish() == h2.finish(), "C14", "cmp", "Arc hash differs from the value's hash");
-                ensure!(dbg == format!("{:?}", **x), "C14", "cmp", "Arc {{:?}} differs from the value's");
+                ensure!(
+                    eq == (ti == tj) && ne == !eq,
+                    "C14",
+                    "cmp",
+                    "Arc eq/ne = {}/{} for values {} and {}",
+                    eq,
+                    ne,
+                    ti,
+                    tj
+                );
+                ensure!(
+                    ord == ti.cmp(&tj),
+                    "C14",
+                    "cmp",
+                    "Arc cmp = {:?} for values {} and {}",
+                    ord,
+                    ti,
+                    tj
+                );
+                ensure!(
+                    h1.finish() == h2.finish(),
+                    "C14",
+                    "cmp",
+                    "Arc hash differs from the value's hash"
+                );
+                ensure!(
+                    dbg == format!("{:?}", **x),
+                    "C14",
+                    "cmp",
+                    "Arc {{:?}} differs from the value's"
+                );
                 done = "arc";
             }
             (H::Off(x), H::Off(y)) => {
                 let eq = x == y;
                 let ne = x != y;
-                ensure!(eq == (ti == tj) && ne == !eq, "C14", "cmp", "OffsetArc eq/ne = {}/{} for values {} and {}", eq, ne, ti, tj);
-                ensure!(format!("{:?}", x) == format!("{:?}", **x), "C14", "cmp", "OffsetArc {{:?}} differs from the value's");
+                ensure!(
+                    eq == (ti == tj) && ne == !eq,
+                    "C14",
+                    "cmp",
+                    "OffsetArc eq/ne = {}/{} for values {} and {}",
+                    eq,
+                    ne,
+                    ti,
+                    tj
+                );
+                ensure!(
+                    format!("{:?}", x) == format!("{:?}", **x),
+                    "C14",
+                    "cmp",
+                    "OffsetArc {{:?}} differs from the value's"
+                );
                 done = "off";
             }
             (H::U1(x), H::U1(y)) => {
                 let eq = x == y;
-                ensure!(eq == (ti == tj), "C14", "cmp", "ArcUnion eq = {} for first-variant values {} and {} (same allocation: {})", eq, ti, tj, same);
+                ensure!(
+                    eq == (ti == tj),
+                    "C14",
+                    "cmp",
+                    "ArcUnion eq = {} for first-variant values {} and {} (same allocation: {})",
+                    eq,
+                    ti,
+                    tj,
+                    same
+                );
                 done = "u1";
             }
             (H::UU(x, sx), H::UU(y, sy)) => {
                 let eq = x == y;
                 let want = sx == sy && ti == tj;
-                ensure!(eq == want, "C14,C12", "cmp", "ArcUnion<P,P> eq = {} for variants {}/{} values {} and {}", eq, sx, sy, ti, tj);
+                ensure!(
+                    eq == want,
+                    "C14,C12",
+                    "cmp",
+                    "ArcUnion<P,P> eq = {} for variants {}/{} values {} and {}",
+                    eq,
+                    sx,
+                    sy,
+                    ti,
+                    tj
+                );
                 done = "uu";
             }
             (H::Arc(x), _) => {
                 let dbg = format!("{:?}", x.borrow_arc());
-                ensure!(dbg == format!("{:?}", **x), "C14", "cmp", "ArcBorrow {{:?}} = {} differs from the value's", dbg);
+                ensure!(
+                    dbg == format!("{:?}", **x),
+                    "C14",
+                    "cmp",
+                    "ArcBorrow {{:?}} = {} differs from the value's",
+                    dbg
+                );
                 done = "borrow-fmt";
             }
             _ => {}
@@ -1243,21 +1609,43 @@ impl<'s, P: Pay + Send + Sync> W<'s, P> {
             let id = self.loose_ids.pop().unwrap();
             drop(v);
             if P::HAS_ID {
-                ensure!(tk::state(id) == tk::DEAD, "C09", "unwrap", "harness: moved-out value not destroyed on drop");
+                ensure!(
+                    tk::state(id) == tk::DEAD,
+                    "C09",
+                    "unwrap",
+                    "harness: moved-out value not destroyed on drop"
+                );
             }
         }
         self.verify("final-release")?;
         if P::HAS_ID {
-            ensure!(tk::live() == 0, "C01", "live", "{} tracked values still alive at quiescence", tk::live());
+            ensure!(
+                tk::live() == 0,
+                "C01",
+                "live",
+                "{} tracked values still alive at quiescence",
+                tk::live()
+            );
         }
         if shadow::active() {
             shadow::flush_quarantine();
             let f = shadow::take_findings();
             if let Some(x) = f.first() {
-                return viol("C01", "alloc", format!("at quiescence: allocator monitor: {:?}", x));
+                return viol(
+                    "C01",
+                    "alloc",
+                    format!("at quiescence: allocator monitor: {:?}", x),
+                );
             }
             let lb = shadow::live_blocks();
-            ensure!(lb.is_empty(), "C01", "live", "{} blocks never returned to the allocator: {:x?}", lb.len(), &lb[..lb.len().min(4)]);
+            ensure!(
+                lb.is_empty(),
+                "C01",
+                "live",
+                "{} blocks never returned to the allocator: {:x?}",
+                lb.len(),
+                &lb[..lb.len().min(4)]
+            );
         }
         Ok(())
     }
@@ -1279,7 +1667,12 @@ pub fn soft_push(soft: &mut Vec<Viol>, props: &'static str, oracle: &'static str
     }
 }
 
-pub fn run_one<P: Pay + Send + Sync>(seed: u64, nops: usize, light: bool, st: &mut Stats) -> Result<(), (Vec<Viol>, Vec<String>)> {
+pub fn run_one<P: Pay + Send + Sync>(
+    seed: u64,
+    nops: usize,
+    light: bool,
+    st: &mut Stats,
+) -> Result<(), (Vec<Viol>, Vec<String>)> {
     let id0 = tk::next_id();
     shadow::reset();
     let _ = tk::take_findings();
